@@ -97,3 +97,14 @@ def gallina(t):
 def ascii_only(t):
     rule, text, kids = t
     return all(ord(c) < 128 and (ord(c) >= 32 or c in "\n\t\r") for c in text) and all(ascii_only(k) for k in kids)
+
+
+def san_bytes(text):
+    """byte-level placeholder for everything outside printable ASCII, tab, LF, CR (the Coq side
+    does the same on the model's byte strings: Checks.san_str)"""
+    return "".join(chr(b) if (32 <= b <= 126 or b in (9, 10, 13)) else "?" for b in text.encode("utf-8"))
+
+
+def san_bytes_tree(t):
+    rule, text, kids = t
+    return (rule, san_bytes(text), [san_bytes_tree(k) for k in kids])
